@@ -46,12 +46,12 @@ func (compile schemaCompiler) compileNode(node schema.Node, indexOfNode int) {
 	if err := compile.allowedConstraintCheck(node); err != nil {
 		panic(err)
 	}
-	compile.anyConstraint(node) // can panic
+	compile.anyConstraint(node)              // can panic
+	compile.exclusiveMinimumConstraint(node) // can panic. Must be called before compile.checkPairConstraints()
+	compile.exclusiveMaximumConstraint(node) // can panic. Must be called before compile.checkPairConstraints()
 	if err := compile.checkPairConstraints(node); err != nil {
 		panic(err)
 	}
-	compile.exclusiveMinimumConstraint(node)       // can panic
-	compile.exclusiveMaximumConstraint(node)       // can panic
 	compile.optionalConstraints(node, indexOfNode) // can panic
 
 	if branchingNode, ok := node.(schema.BranchNode); ok {
